@@ -20,8 +20,40 @@ POOLS = {
     "td": [TD(1), TD(days=-400, seconds=5), TD(0)],
 }
 TYPES = list(POOLS)
-# pools that only C06 uses: a mixed-type (object dtype) vector
-EXTRA = {"obj": [1, "a", 2.5, "b", (1, 2)]}
+
+
+class NC:
+    """an element type whose operators are NOT commutative and record the written operand order: `NC('a') * 2` is
+    `NC('(a*2)')`, `2 * NC('a')` is `NC('(2*a)')` (a matrix / quaternion / symbolic value behaves like this)"""
+
+    def __init__(self, s):
+        self.s = s
+
+    def __repr__(self):
+        return f"NC({self.s!r})"
+
+    def __eq__(self, o):
+        return isinstance(o, NC) and o.s == self.s
+
+    def __hash__(self):
+        return hash(("NC", self.s))
+
+
+def _nc_text(o):
+    return o.s if isinstance(o, NC) else repr(o)
+
+
+def _nc_scalar(o):
+    """NC combines with scalars only; vectors, tables and sequences get their own (reflected) operator"""
+    return not (hasattr(o, "_underlying") or isinstance(o, (list, tuple, range, dict, set)))
+
+
+for _name, _sym in (("add", "+"), ("sub", "-"), ("mul", "*"), ("truediv", "/"), ("floordiv", "//"), ("mod", "%"), ("pow", "**")):
+    setattr(NC, f"__{_name}__", (lambda sym: lambda self, o: NC(f"({self.s}{sym}{_nc_text(o)})") if _nc_scalar(o) else NotImplemented)(_sym))
+    setattr(NC, f"__r{_name}__", (lambda sym: lambda self, o: NC(f"({_nc_text(o)}{sym}{self.s})") if _nc_scalar(o) else NotImplemented)(_sym))
+
+# pools that only some families use: a mixed-type (object dtype) vector (C06), non-commutative elements (C05)
+EXTRA = {"obj": [1, "a", 2.5, "b", (1, 2)], "nc": [NC("a"), NC("b")]}
 
 
 def pool(t):
